@@ -29,9 +29,9 @@ RULE = (
     "number of earlier insertions, outcome)."
 )
 SHARDS = {"quick": 16, "thorough": 16}
-TIMEOUT = {"quick": 400, "thorough": 3600}
+TIMEOUT = {"quick": 400, "thorough": 7200}
 MIN_EVALS = {"quick": 60000, "thorough": 900000}
-CASES = {"quick": 2500, "thorough": 40000}
+CASES = {"quick": 2500, "thorough": 400000}
 ASSUMPTIONS = [
     "offsets are odfdo's documented text-node offsets (concatenation of descendant text nodes); regex matches do not span text nodes (documented)",
     "readable text = vf/oracles/odftext.py projection with notes/annotations/frames opaque",
